@@ -1,5 +1,6 @@
 import TrionModel.Props.C18Main
 import TrionModel.Props.C05Asm
+import TrionModel.Props.C05Multi
 /-!
 # C18 composed with C05 — the file `trias` writes holds the sequential layout of the program
 
@@ -9,7 +10,7 @@ single-file program: whenever `trias` writes a file, the independent UF2 reader 
 two-pass reference places at an address is the byte the decoded memory image holds at that address.
 -/
 namespace Trion.Trias
-open Trion Trion.Asm Trion.Uf2
+open Trion Trion.Asm Trion.Uf2 Trion.Asm.Multi
 
 /-- C18∘C05 `trias_file_is_layout` -/
 theorem trias_file_is_layout {num : Bytes → Nat} (hinj : Function.Injective num) (fs : Bytes → Option Bytes)
@@ -23,6 +24,25 @@ theorem trias_file_is_layout {num : Bytes → Nat} (hinj : Function.Injective nu
   obtain ⟨t₂, _, _, ⟨img', hp2, himg⟩, _⟩ := layout_refines_asm hinj fs main data hfs els perr hparse hsf o hr hs
   obtain ⟨⟨bs, hread, hb⟩, _⟩ := trias_of_run fs main o hr f hp
   refine ⟨t₂, img', hp2, bs, hread, fun a v hv => hb a v ?_⟩
+  rw [lookup_is_map_abs, himg a]
+  exact hv
+
+/-- C18∘C05 `trias_file_is_layout_includes`  The same for projects of any number of files (`LocalProject`: every file uses
+its own names only — the hypothesis of `layout_refines_asm_includes_partial`): the flattened statement list `p` of the
+whole project exists, and every byte its two-pass reference layout places is the byte of the decoded file. -/
+theorem trias_file_is_layout_includes {num : Nat → Bytes → Nat} (hinj : NumInj num) (fs : Bytes → Option Bytes)
+    (main data : Bytes) (hfs : fs main = some data) (hloc : LocalProject fs maxDepth main data)
+    (f : List UInt8) (hm : mainOut fs main = .written f) :
+    ∃ (els : List Element) (perr : Option ParseErr) (p : List Layout.Stmt) (E : Layout.Env) (t : Table) (n : Nat) (img' : Layout.Img),
+      parseFile data = .ok (els, perr) ∧ FlatEls num fs encoder E 0 main t 1 none els p n ∧
+      Layout.Ref.pass2 none [] p = some img' ∧
+      ∃ bs, read f = some bs ∧ ∀ a v, img'.get a = some v → image bs a = some v := by
+  obtain ⟨o, hr, hd, hc, hp⟩ := (main_written_iff fs main f).mp hm
+  have hs : o.success = true := (success_iff fs main o hr).mpr ⟨hd, hc⟩
+  obtain ⟨els, perr, p, E, t, n, hparse, _, hflat, _, ⟨img', hp2, himg⟩, _⟩ :=
+    layout_refines_asm_includes_partial hinj fs main data hfs hloc o hr hs
+  obtain ⟨⟨bs, hread, hb⟩, _⟩ := trias_of_run fs main o hr f hp
+  refine ⟨els, perr, p, E, t, n, img', hparse, hflat, hp2, bs, hread, fun a v hv => hb a v ?_⟩
   rw [lookup_is_map_abs, himg a]
   exact hv
 
